@@ -82,7 +82,7 @@ def neighbors (m : Mol) (k : Key) : List Key :=
 
 /-- sum of incident bond orders in half units (`_bonds(mol, n, use_order=True)`) -/
 def bonds2 (m : Mol) (k : Key) : Nat :=
-  (m.edges.filter fun e => e.a == k || e.b == k).foldl (fun acc e => acc + e.order2) 0
+  ((m.edges.filter fun e => e.a == k || e.b == k).map (·.order2)).sum
 
 end Mol
 end CGV
